@@ -11,6 +11,8 @@ mod c03;
 mod c04;
 mod c05;
 mod c06;
+mod c07;
+mod digest;
 mod c08;
 mod c09;
 mod c10;
@@ -99,6 +101,7 @@ fn main() {
         "C04" => (c04::run, c04::replay),
         "C05" => (c05::run, c05::replay),
         "C06" => (c06::run, c06::replay),
+        "C07" => (c07::run, c07::replay),
         "C08" => (c08::run, c08::replay),
         "C09" => (c09::run, c09::replay),
         "C10" => (c10::run, c10::replay),
